@@ -102,6 +102,49 @@ Proof.
 Qed.
 Print Assumptions periodic_run.
 
+
+(* ---- termination: after 2 |ops| + 2 requests the schedule is exhausted (is_exhausted True, further requests stop) ---- *)
+Lemma disk_cfg_terminates kd N ram disk L0 k : 1 <= N -> 1 <= ram -> DiskBlk.DBlk ram 0 (N - 1) L0 -> (2 * length L0 + 1 < k)%nat ->
+  let '(s', m, ls) := run_ops (disk_xparams N ram) {| ob := ORevF kd N ram disk (init_r (map inj L0)); started := false |} mon0 (repeat Next k) in
+  no_raise ls /\ DiskBridge3.leftover_or_ok m /\ is_exhausted s' = true.
+Proof.
+  intros HN Hram HB Hk. destruct (disk_J0 kd N ram disk L0 HN Hram HB) as [T HJ0].
+  pose proof (DiskBridge3.run_nexts2 N ram ltac:(lia) (map inj L0) kd ram disk T k _ _ HJ0) as Hrun.
+  pose proof (DiskBridge3.run_nexts2_fin N ram ltac:(lia) (map inj L0) kd ram disk T k _ _ HJ0) as Hfin.
+  change (DiskBridge2.pD N ram) with (disk_xparams N ram) in Hrun, Hfin.
+  destruct (run_ops (disk_xparams N ram) _ mon0 (repeat Next k)) as [[s' m'] ls]. destruct Hrun as [HJ Hnr]. cbn [fst] in Hfin.
+  split; [exact Hnr|]. split; [exact (DiskBridge3.J_verdict _ _ _ _ _ _ _ _ _ HJ)|]. apply Hfin. right.
+  unfold RevBridge3.muS. cbn [ob init_r finished idx pend length]. rewrite map_length. lia.
+Qed.
+Theorem disk_revolve_terminates N ram disk uf ub wd rd : 1 <= N -> 1 <= ram ->
+  exists L K, sequence KDiskRevolve N ram disk uf ub wd rd = Ok L /\ forall k, (K <= k)%nat ->
+  let '(s', m, ls) := run_ops (disk_xparams N ram) {| ob := ORevF KDiskRevolve N ram disk (init_r L); started := false |} mon0 (repeat Next k) in
+  no_raise ls /\ DiskBridge3.leftover_or_ok m /\ is_exhausted s' = true.
+Proof.
+  intros HN Hram.
+  destruct (disk_revolve_top_total (N - 1) ram wd rd uf ub ltac:(lia) Hram) as [L HL].
+  assert (Hg : exists L0, L = map inj L0 /\ DiskBlk.DBlk ram 0 (N - 1) L0).
+  { pose proof HL as HL'. unfold disk_revolve_top in HL'. destruct (get_opt_0_table (N - 1) ram uf ub) as [t|]; [|discriminate]. cbn [bind] in HL'.
+    destruct (get_opt_inf_table (N - 1) ram uf ub wd rd t) as [ti|]; [|discriminate]. cbn [bind] in HL'.
+    apply (disk_grammar _ _ _ _ _ _ _ _ _ HL'); lia. }
+  destruct Hg as (L0 & -> & HB). exists (map inj L0), (2 * length L0 + 2)%nat. split; [exact HL|]. intros k Hk.
+  exact (disk_cfg_terminates KDiskRevolve N ram disk L0 k HN Hram HB ltac:(lia)).
+Qed.
+Print Assumptions disk_revolve_terminates.
+Theorem periodic_terminates N ram disk uf ub wd rd : 1 <= N -> 1 <= ram ->
+  exists L K, sequence KPeriodic N ram disk uf ub wd rd = Ok L /\ forall k, (K <= k)%nat ->
+  let '(s', m, ls) := run_ops (disk_xparams N ram) {| ob := ORevF KPeriodic N ram disk (init_r L); started := false |} mon0 (repeat Next k) in
+  no_raise ls /\ DiskBridge3.leftover_or_ok m /\ is_exhausted s' = true.
+Proof.
+  intros HN Hram.
+  destruct (periodic_top_total (N - 1) ram wd rd uf ub ltac:(lia) Hram) as [L HL].
+  destruct (periodic_grammar (N - 1) ram wd rd uf ub L _ ltac:(lia) Hram HL (mxrr_pos _ _ _ _)) as (L0 & -> & HB).
+  exists (map inj L0), (2 * length L0 + 2)%nat. split.
+  - change (sequence KPeriodic N ram disk uf ub wd rd) with (do p <- periodic_top (N - 1) ram wd rd uf ub; Ok (fst p)). rewrite HL. reflexivity.
+  - intros k Hk. exact (disk_cfg_terminates KPeriodic N ram disk L0 k HN Hram HB ltac:(lia)).
+Qed.
+Print Assumptions periodic_terminates.
+
 (* what the verdict means for each property's error class *)
 Require Projections.
 Lemma leftover_no_err (P : merr -> Prop) m : DiskBridge3.leftover_or_ok m -> ~ P (MX E_leftover) -> Projections.no_err P m.
